@@ -103,6 +103,8 @@ pub struct TypeRegistry {
 impl TypeRegistry {
     pub fn store<T: 'static>(description: TypeDescription) -> Ty {
         let ty = Ty::new::<T>(description);
+        #[cfg(feature = "verif-hooks")]
+        crate::verif::emit(crate::verif::Event::TypeRegistryLock);
         GLOBAL_TYPE_REGISTRY
             .lock()
             .unwrap()
@@ -117,6 +119,8 @@ impl TypeRegistry {
     }
 
     pub fn get(id: TypeId) -> Option<&'static Ty> {
+        #[cfg(feature = "verif-hooks")]
+        crate::verif::emit(crate::verif::Event::TypeRegistryLock);
         let registry = GLOBAL_TYPE_REGISTRY.lock().unwrap();
         registry.map.get(&id).map(|v| &**v)
     }
